@@ -296,6 +296,81 @@ func init() {
 					})
 				})
 			}
+			// scalar node kinds in string positions are judged on their text (yaml.v3 hands any scalar to a string field);
+			// null means "absent"; sequences and mappings are rejected
+			kinds := []struct {
+				raw  string
+				text string // "" with absent=true: the attribute counts as not given
+				kind string // scalar | null | composite
+			}{
+				{"5", "5", "scalar"}, {"true", "true", "scalar"}, {"1.5", "1.5", "scalar"}, {"abc", "abc", "scalar"}, {"0x1F", "0x1F", "scalar"}, {"null", "", "null"}, {"~", "", "null"},
+				{"[a]", "", "composite"}, {"{a: b}", "", "composite"}, {"[]", "", "composite"},
+			}
+			strPositions := []struct {
+				id     string
+				embed  func(r Raw) *Cfg
+				ok     func(string) bool
+				nullOK bool // the configuration is still valid when the attribute is absent
+			}{
+				{"pkg", func(r Raw) *Cfg { c := c11base(); c.Meta.Pkg = nil; c.Meta.Extra = []KV{{"pkg", r}}; return c }, IsGoToken, true},
+				{"container_type", func(r Raw) *Cfg { c := c11base(); c.Meta.Extra = []KV{{"container_type", r}}; return c }, IsGoToken, true},
+				{"getter", func(r Raw) *Cfg {
+					c := c11base()
+					c.Services = append(c.Services, Service{Name: "sut", Constructor: P("pk.New"), Extra: []KV{{"getter", r}}})
+					return c
+				}, okGetter, true},
+				{"type", func(r Raw) *Cfg {
+					c := c11base()
+					c.Services = append(c.Services, Service{Name: "sut", Constructor: P("pk.New"), Extra: []KV{{"type", r}}})
+					return c
+				}, func(x string) bool { _, ok := ParseType(x); return ok }, true},
+				{"constructor", func(r Raw) *Cfg {
+					c := c11base()
+					c.Services = append(c.Services, Service{Name: "sut", Type: P("pk.T"), Extra: []KV{{"constructor", r}}})
+					return c
+				}, func(x string) bool { _, ok := ParseGoFunc(x); return ok }, true},
+				{"value", func(r Raw) *Cfg {
+					c := c11base()
+					c.Services = append(c.Services, Service{Name: "sut", Type: P("pk.T"), Extra: []KV{{"value", r}}})
+					return c
+				}, func(x string) bool { _, ok := ParseValue(x); return ok }, true},
+				{"decorator-tag", func(r Raw) *Cfg {
+					c := c11base()
+					c.Decorators = []Decorator{{Tag: "x", Decorator: "pk.Dec1"}}
+					y := c.YAML()
+					_ = y
+					return c
+				}, nil, false},
+			}
+			for _, sp := range strPositions {
+				if sp.ok == nil {
+					continue
+				}
+				for _, k := range kinds {
+					sp, k := sp, k
+					w.Case(fmt.Sprintf("nodekind/%s/%s", sp.id, k.raw), func(c *C) {
+						cfg := sp.embed(Raw(k.raw))
+						files := []File{{"c.yaml", cfg.YAML()}}
+						br := w.Build(files)
+						c.Distinct("all", c.ID)
+						c.Distinct("nontrivial", c.ID)
+						want := false
+						switch k.kind {
+						case "scalar":
+							want = sp.ok(k.text)
+						case "null":
+							want = sp.nullOK
+						}
+						if br.Panic != "" {
+							c.Violation("panic:nodekind", "tool panicked:\n"+br.Panic, FilesMap(files), nil)
+							return
+						}
+						if want != (br.Exit == 0) {
+							c.Violation("node-kind:"+sp.id+":"+k.kind, fmt.Sprintf("%s: %s (a %s node): expected accepted=%v\n%s", sp.id, k.raw, k.kind, want, strings.Join(ErrorLines(br.Out), "\n")), FilesMap(files), nil)
+						}
+					})
+				}
+			}
 			// creation truth table
 			for m := 0; m < 16; m++ {
 				m := m
